@@ -8,6 +8,7 @@ from .flow import ExprBuilder, cfg_of, canon, walk, fmt_expr, relations_at, enum
 from .logic import Ctx, uncast, is_call, const_of
 from . import roles
 from .r_a6 import strip_ptr, reserve_postcondition
+from .inline import resolve_sites, views
 
 HANDLE = "bytes_mut::BytesMut"
 
@@ -69,6 +70,137 @@ def calls_with(b, eb):
     return out
 
 
+def judge_writes(facts, b, only_blocks=None):
+    """verdict for every write to BytesMut.{ptr,len,cap} (and every BytesMut aggregate) in `b` (a body or an inlined view)"""
+    out = []
+    eb = ExprBuilder(b, facts, inline=True)
+    ws = writes_of(b, facts, eb)
+    if not ws:
+        return out
+    cfg = cfg_of(b)
+    calls = calls_with(b, eb)
+    for w in ws:
+        if w["field"] == "data":
+            continue
+        if only_blocks is not None and w["bb"] not in only_blocks:
+            continue
+        extra = reserve_postcondition(b, w["bb"], facts, eb)
+        ctx = Ctx(b, w["bb"], facts, extra=extra)
+        mates = [x for x in ws if x is not w and x["kind"] == "write" and x.get("base") == w.get("base") and same_path(cfg, x, w)]
+
+        def mate(field):
+            m = [x for x in mates if x["field"] == field]
+            # nearest in the same block if several
+            same = [x for x in m if x["bb"] == w["bb"]]
+            return (same or m or [None])[0]
+        ok, how = False, ""
+        if w["kind"] == "agg":
+            f = w["fields"]
+            V, off = vec_of_ptr(f["ptr"])
+            if V is not None and off is None and is_call(f["cap"], "capacity") and f["cap"][2] == (V,) and is_call(f["len"], "len") and f["len"][2] == (V,):
+                ok, how = True, "(ptr, len, cap) are the start, len() and capacity() of one Vec"
+            else:
+                # view into a shared Vec: cap = capacity(V) - offset_from(ptr, V.ptr)
+                cp = f["cap"]
+                if isinstance(cp, tuple) and cp[0] == "bin" and cp[1] == "Sub" and is_call(cp[2], "capacity") and is_call(uncast(cp[3]), "offset_from"):
+                    o = uncast(cp[3])
+                    V2 = cp[2][2][0]
+                    p0, v0 = strip_ptr(o[2][0]), strip_ptr(o[2][1])
+                    if strip_ptr(f["ptr"]) == p0 and (is_call(v0, "as_mut_ptr") or is_call(v0, "as_ptr")) and v0[2][0] == V2:
+                        ok, how = True, "cap = capacity(v) - (ptr - v.ptr) for the ptr stored in the handle"
+            if not ok:
+                how = "aggregate fields are not (v.ptr, v.len, v.capacity) nor a view with cap = capacity - offset: %s" % {k: fmt_expr(v)[:80] for k, v in f.items()}
+        elif w["field"] == "cap":
+            E = w["expr"]
+            base = w["base"]
+            pm = mate("ptr")
+            # a3: cap +/- k with the pointer moved the other way by the same k
+            if isinstance(E, tuple) and E[0] == "bin" and E[1] in ("Add", "Sub") and self_field(E[2], "cap", base) is not None:
+                k = E[3]
+                if pm is not None:
+                    p = strip_ptr(pm["expr"])
+                    want = "sub" if E[1] == "Add" else "add"
+                    if is_call(p, want) and p[2][1] == k and self_field(strip_ptr(p[2][0]), "ptr", base) is not None:
+                        ok, how = True, "cap %s k paired with ptr.%s(k), same k" % ("+" if E[1] == "Add" else "-", want)
+                # a6: merge
+                if not ok and E[1] == "Add" and self_field(E[3], "cap") is not None:
+                    ok, how = unsplit_guard(ctx, base, self_field(E[3], "cap"))
+            # a1/a2: capacity(V) [- off] with ptr = V.ptr [+ off]
+            if not ok and pm is not None:
+                V, off = vec_of_ptr(pm["expr"])
+                if V is not None:
+                    if off is None and is_call(E, "capacity") and E[2] == (V,):
+                        ok, how = True, "cap = capacity(v) with ptr = v.ptr"
+                    elif off is not None and isinstance(E, tuple) and E[0] == "bin" and E[1] == "Sub" and is_call(E[2], "capacity") and E[2][2] == (V,) and E[3] == off:
+                        ok, how = True, "cap = capacity(v) - off with ptr = v.ptr + off, same off"
+            # a4: cut at `at` under at <= cap / at <= len
+            if not ok and pm is None:
+                for fld in ("cap", "len"):
+                    if not ok and ctx.le(E, ("field", base, fld)):
+                        ok, how = True, "cap = x under the guard x <= %s" % fld
+                # the written handle is a bitwise copy (`other`) of self: compare against self's fields
+                if not ok:
+                    for r in ctx.rels:
+                        if r[0] in ("le", "lt") and r[1] == E and isinstance(r[2], tuple) and r[2][0] == "field" and r[2][2] in ("len", "cap"):
+                            ok, how = True, "cap = x under the guard x <= source.%s" % r[2][2]
+            # a5: reclaim without moving: guard capacity(V) - offset >= E
+            if not ok and pm is None:
+                for r in ctx.rels:
+                    if r[0] in ("le", "lt") and r[1] == E:
+                        y = r[2]
+                        if isinstance(y, tuple) and y[0] == "bin" and y[1] == "Sub" and is_call(y[2], "capacity") and is_call(uncast(y[3]), "offset_from"):
+                            o = uncast(y[3])
+                            if self_field(strip_ptr(o[2][0]), "ptr", base) is not None:
+                                ok, how = True, "cap = x under the guard x <= capacity(v) - (self.ptr - v.ptr)"
+            if not ok and not how:
+                how = "cap = %s matches no accepted form (capacity - offset paired with ptr; cap +/- k paired with ptr move; guarded cut; guarded reclaim; guarded merge)" % fmt_expr(E)[:160]
+        elif w["field"] == "len":
+            E = w["expr"]
+            base = w["base"]
+            ln = ("field", base, "len")
+            if b.safety == "unsafe" and E == ("param", 2) and b.id.endswith("::set_len"):
+                ok, how = True, "unsafe fn: `len <= cap` is the caller's contract (checked at every safe caller by A6)"
+            elif is_call(E, "min") and ln in E[2]:
+                ok, how = True, "min(len, _) <= len"
+            elif is_call(E, "unwrap_or") and is_call(E[2][0], "checked_sub") and E[2][0][2][0] == ln:
+                ok, how = True, "checked_sub(len, k).unwrap_or(0) <= len"
+            elif isinstance(E, tuple) and E[0] == "bin" and E[1] == "Sub" and E[2] == ln:
+                ok, how = True, "len - k <= len"
+            elif isinstance(E, tuple) and E[0] == "bin" and E[1] == "Add" and E[2] == ln:
+                k = E[3]
+                if ctx.le(k, ("bin", "Sub", ("field", base, "cap"), ln)):
+                    ok, how = True, "len + k under the guard k <= cap - len"
+                elif self_field(k, "len") is not None:
+                    ok, how = unsplit_guard(ctx, base, self_field(k, "len"))
+            if not ok:
+                if ctx.le(E, ln):
+                    ok, how = True, "len = x under the guard x <= len"
+                else:
+                    for r in ctx.rels:
+                        if r[0] in ("le", "lt") and r[1] == E and isinstance(r[2], tuple) and r[2][0] == "field" and r[2][2] == "len":
+                            ok, how = True, "len = x under the guard x <= source.len"
+            if not ok and not how:
+                how = "len = %s is not bounded by the old len / the spare capacity" % fmt_expr(E)[:160]
+        elif w["field"] == "ptr":
+            E = strip_ptr(w["expr"])
+            base = w["base"]
+            cm = mate("cap")
+            if cm is None:
+                how = "ptr is re-pointed without reassigning cap on the same path"
+            elif is_call(E, "add") and self_field(strip_ptr(E[2][0]), "ptr", base) is not None:
+                k = E[2][1]
+                ce = cm["expr"]
+                if isinstance(ce, tuple) and ce[0] == "bin" and ce[1] == "Sub" and ce[3] == k:
+                    ok, how = True, "ptr + k with cap - k"
+                else:
+                    how = "ptr advanced by k without cap -= k"
+            else:
+                ok, how = bytes_before_pointer(b, w, E, base, calls, cfg, ctx)
+        out.append({"bi": w["bb"], "si": w["si"], "j": (w["si"], w["field"], w["kind"]), "keytail": w["field"], "ok": ok,
+                    "text": how or "unjustified write", "nontrivial": True})
+    return out
+
+
 def run(facts):
     res = Result("A8", "every write to BytesMut.{ptr,len,cap} is bounded by the allocation, paired with its companions, preceded by the byte move; "
                        "copy_nonoverlapping is guarded by distance >= n; split halves use one cut operand; merge needs all adjacency conjuncts")
@@ -81,131 +213,17 @@ def run(facts):
         cfg = cfg_of(b)
         calls = calls_with(b, eb)
         cnt = {}
-        for w in ws:
-            if w["field"] == "data":
-                continue
+        for x in resolve_sites(facts, b, lambda view, only: judge_writes(facts, view, only), keep_names=("offset_from", "rebuild_vec", "vptr")):
             n_writes += 1
-            k0 = "%s|%s" % (b.id, w["field"])
+            k0 = "%s|%s" % (b.id, x["keytail"])
             c = cnt.get(k0, 0)
             cnt[k0] = c + 1
             key = k0 + ("#%d" % c if c else "")
-            loc = b.loc(w["bb"], w["si"])
-            extra = reserve_postcondition(b, w["bb"], facts, eb)
-            ctx = Ctx(b, w["bb"], facts, extra=extra)
-            mates = [x for x in ws if x is not w and x["kind"] == "write" and x.get("base") == w.get("base") and same_path(cfg, x, w)]
-
-            def mate(field):
-                m = [x for x in mates if x["field"] == field]
-                # nearest in the same block if several
-                same = [x for x in m if x["bb"] == w["bb"]]
-                return (same or m or [None])[0]
-            ok, how = False, ""
-            if w["kind"] == "agg":
-                f = w["fields"]
-                V, off = vec_of_ptr(f["ptr"])
-                if V is not None and off is None and is_call(f["cap"], "capacity") and f["cap"][2] == (V,) and is_call(f["len"], "len") and f["len"][2] == (V,):
-                    ok, how = True, "(ptr, len, cap) are the start, len() and capacity() of one Vec"
-                else:
-                    # view into a shared Vec: cap = capacity(V) - offset_from(ptr, V.ptr)
-                    cp = f["cap"]
-                    if isinstance(cp, tuple) and cp[0] == "bin" and cp[1] == "Sub" and is_call(cp[2], "capacity") and is_call(uncast(cp[3]), "offset_from"):
-                        o = uncast(cp[3])
-                        V2 = cp[2][2][0]
-                        p0, v0 = strip_ptr(o[2][0]), strip_ptr(o[2][1])
-                        if strip_ptr(f["ptr"]) == p0 and (is_call(v0, "as_mut_ptr") or is_call(v0, "as_ptr")) and v0[2][0] == V2:
-                            ok, how = True, "cap = capacity(v) - (ptr - v.ptr) for the ptr stored in the handle"
-                if not ok:
-                    how = "aggregate fields are not (v.ptr, v.len, v.capacity) nor a view with cap = capacity - offset: %s" % {k: fmt_expr(v)[:80] for k, v in f.items()}
-            elif w["field"] == "cap":
-                E = w["expr"]
-                base = w["base"]
-                pm = mate("ptr")
-                # a3: cap +/- k with the pointer moved the other way by the same k
-                if isinstance(E, tuple) and E[0] == "bin" and E[1] in ("Add", "Sub") and self_field(E[2], "cap", base) is not None:
-                    k = E[3]
-                    if pm is not None:
-                        p = strip_ptr(pm["expr"])
-                        want = "sub" if E[1] == "Add" else "add"
-                        if is_call(p, want) and p[2][1] == k and self_field(strip_ptr(p[2][0]), "ptr", base) is not None:
-                            ok, how = True, "cap %s k paired with ptr.%s(k), same k" % ("+" if E[1] == "Add" else "-", want)
-                    # a6: merge
-                    if not ok and E[1] == "Add" and self_field(E[3], "cap") is not None:
-                        ok, how = unsplit_guard(ctx, base, self_field(E[3], "cap"))
-                # a1/a2: capacity(V) [- off] with ptr = V.ptr [+ off]
-                if not ok and pm is not None:
-                    V, off = vec_of_ptr(pm["expr"])
-                    if V is not None:
-                        if off is None and is_call(E, "capacity") and E[2] == (V,):
-                            ok, how = True, "cap = capacity(v) with ptr = v.ptr"
-                        elif off is not None and isinstance(E, tuple) and E[0] == "bin" and E[1] == "Sub" and is_call(E[2], "capacity") and E[2][2] == (V,) and E[3] == off:
-                            ok, how = True, "cap = capacity(v) - off with ptr = v.ptr + off, same off"
-                # a4: cut at `at` under at <= cap / at <= len
-                if not ok and pm is None:
-                    for fld in ("cap", "len"):
-                        if not ok and ctx.le(E, ("field", base, fld)):
-                            ok, how = True, "cap = x under the guard x <= %s" % fld
-                    # the written handle is a bitwise copy (`other`) of self: compare against self's fields
-                    if not ok:
-                        for r in ctx.rels:
-                            if r[0] in ("le", "lt") and r[1] == E and isinstance(r[2], tuple) and r[2][0] == "field" and r[2][2] in ("len", "cap"):
-                                ok, how = True, "cap = x under the guard x <= source.%s" % r[2][2]
-                # a5: reclaim without moving: guard capacity(V) - offset >= E
-                if not ok and pm is None:
-                    for r in ctx.rels:
-                        if r[0] in ("le", "lt") and r[1] == E:
-                            y = r[2]
-                            if isinstance(y, tuple) and y[0] == "bin" and y[1] == "Sub" and is_call(y[2], "capacity") and is_call(uncast(y[3]), "offset_from"):
-                                o = uncast(y[3])
-                                if self_field(strip_ptr(o[2][0]), "ptr", base) is not None:
-                                    ok, how = True, "cap = x under the guard x <= capacity(v) - (self.ptr - v.ptr)"
-                if not ok and not how:
-                    how = "cap = %s matches no accepted form (capacity - offset paired with ptr; cap +/- k paired with ptr move; guarded cut; guarded reclaim; guarded merge)" % fmt_expr(E)[:160]
-            elif w["field"] == "len":
-                E = w["expr"]
-                base = w["base"]
-                ln = ("field", base, "len")
-                if b.safety == "unsafe" and E == ("param", 2) and b.id.endswith("::set_len"):
-                    ok, how = True, "unsafe fn: `len <= cap` is the caller's contract (checked at every safe caller by A6)"
-                elif is_call(E, "min") and ln in E[2]:
-                    ok, how = True, "min(len, _) <= len"
-                elif is_call(E, "unwrap_or") and is_call(E[2][0], "checked_sub") and E[2][0][2][0] == ln:
-                    ok, how = True, "checked_sub(len, k).unwrap_or(0) <= len"
-                elif isinstance(E, tuple) and E[0] == "bin" and E[1] == "Sub" and E[2] == ln:
-                    ok, how = True, "len - k <= len"
-                elif isinstance(E, tuple) and E[0] == "bin" and E[1] == "Add" and E[2] == ln:
-                    k = E[3]
-                    if ctx.le(k, ("bin", "Sub", ("field", base, "cap"), ln)):
-                        ok, how = True, "len + k under the guard k <= cap - len"
-                    elif self_field(k, "len") is not None:
-                        ok, how = unsplit_guard(ctx, base, self_field(k, "len"))
-                if not ok:
-                    if ctx.le(E, ln):
-                        ok, how = True, "len = x under the guard x <= len"
-                    else:
-                        for r in ctx.rels:
-                            if r[0] in ("le", "lt") and r[1] == E and isinstance(r[2], tuple) and r[2][0] == "field" and r[2][2] == "len":
-                                ok, how = True, "len = x under the guard x <= source.len"
-                if not ok and not how:
-                    how = "len = %s is not bounded by the old len / the spare capacity" % fmt_expr(E)[:160]
-            elif w["field"] == "ptr":
-                E = strip_ptr(w["expr"])
-                base = w["base"]
-                cm = mate("cap")
-                if cm is None:
-                    how = "ptr is re-pointed without reassigning cap on the same path"
-                elif is_call(E, "add") and self_field(strip_ptr(E[2][0]), "ptr", base) is not None:
-                    k = E[2][1]
-                    ce = cm["expr"]
-                    if isinstance(ce, tuple) and ce[0] == "bin" and ce[1] == "Sub" and ce[3] == k:
-                        ok, how = True, "ptr + k with cap - k"
-                    else:
-                        how = "ptr advanced by k without cap -= k"
-                else:
-                    ok, how = bytes_before_pointer(b, w, E, base, calls, cfg, ctx)
-            if ok:
-                res.ok(key, loc, how, nontrivial=True)
+            loc = b.loc(x["bi"], x["si"])
+            if x["ok"]:
+                res.ok(key, loc, x["text"], nontrivial=True)
             else:
-                res.bad(key, loc, how or "unjustified write")
+                res.bad(key, loc, x["text"])
         # d. NONOVERLAP
         for (bi, path, name, args) in calls:
             if name != "copy_nonoverlapping" or len(args) != 3 or b.safety != "safe":
@@ -234,7 +252,7 @@ def run(facts):
                 res.ok(key, b.loc(bi), "distance %s >= n dominates the copy" % fmt_expr(dist)[:60], nontrivial=True)
             else:
                 res.bad(key, b.loc(bi), "copy_nonoverlapping inside one allocation without a dominating guard distance >= n (regions may overlap)")
-    res.floor("field_writes", n_writes, 25)
+    res.floor("field_writes", n_writes, 18)
     reclaim_contract(res, facts)
     reserve_promise(res, facts)
     split_pair(res, facts)
@@ -387,15 +405,45 @@ def clone_never_shares(res, facts):
         res.ok(key, cands[0].loc(), "reaches neither shallow_clone nor a refcount increment (%d fns)" % len(seen))
 
 
+def reserve_helper(facts):
+    """the bool-returning reservation helper fn(&mut BytesMut, usize, bool) -> bool (reserve_inner)"""
+    cands = [b for b in facts.fn_bodies() if b.kind == "assoc_fn" and b.j.get("output") == "bool" and b.arg_count == 3
+             and b.locals[1]["ty"] == "&mut " + HANDLE and b.locals[2]["ty"] == "usize" and b.locals[3]["ty"] == "bool"]
+    if len(cands) != 1:
+        raise RuleError("reservation helper (fn(&mut BytesMut, usize, bool) -> bool) not found: %r" % [b.id for b in cands])
+    return cands[0]
+
+
+def judged_on_views(res, facts, b0, judge):
+    """judge(view) -> [(key, ok, text, extra)]; the function as written first, its inlined views before anything is reported"""
+    out = judge(b0)
+    for ib in views(facts, b0, keep_names=("rebuild_vec", "offset_from", "vptr", "release_shared", "is_unique", "get_vec_pos", "set_vec_pos", "kind")):
+        alt = judge(ib)
+        if not alt:
+            continue
+        hidden = len(alt) > len(out)            # a helper holds sites the function as written does not show: the view decides
+        rescued = any(not x[1] for x in out) and all(x[1] for x in alt)
+        if hidden or rescued:
+            out = [(k, ok, t + " (with helpers inlined)", e) for (k, ok, t, e) in alt]
+            if all(x[1] for x in out):
+                break
+    for (key, ok, text, extra) in out:
+        if ok:
+            res.ok(key, b0.loc(), text, nontrivial=True)
+        else:
+            res.bad(key, b0.loc(), text, **(extra or {}))
+
+
 def reclaim_contract(res, facts):
     """try_reclaim(n) == false leaves address, length and capacity unchanged; == true means capacity was
     (re)established: in the bool-returning reservation helper every path that returns false performs no
     state write / byte move before, and every path that returns true reassigns cap."""
-    cands = [b for b in facts.fn_bodies() if b.kind == "assoc_fn" and b.j.get("output") == "bool" and b.arg_count == 3
-             and b.locals[1]["ty"] == "&mut " + HANDLE and any(callee(t) and callee(t)["name"] == "copy_nonoverlapping" for _, t in b.calls())]
-    if len(cands) != 1:
-        raise RuleError("reservation helper (fn(&mut BytesMut, usize, bool) -> bool) not found: %r" % [b.id for b in cands])
-    b = cands[0]
+    b0 = reserve_helper(facts)
+    judged_on_views(res, facts, b0, lambda v: reclaim_verdicts(facts, v, b0.id))
+
+
+def reclaim_verdicts(facts, b, bid):
+    out = []
     eb = ExprBuilder(b, facts, inline=False)
     wblocks = {}
     for w in writes_of(b, facts, eb):
@@ -408,7 +456,7 @@ def reclaim_contract(res, facts):
     n_false = n_true = 0
     bad_false = bad_true = None
     for path in enumerate_paths(b, limit=5000):
-        # last assignment to _0 on the path
+        # last assignment of a constant to the return place (directly or through the result local of an inlined helper)
         val = None
         for bi in path:
             for s_ in b.blocks[bi]["stmts"]:
@@ -423,29 +471,31 @@ def reclaim_contract(res, facts):
             n_true += 1
             if "cap" not in touched and bad_true is None:
                 bad_true = (path, touched)
-    key = "%s|false => unchanged" % b.id
+    key = "%s|false => unchanged" % bid
     if bad_false:
-        res.bad(key, b.loc(), "a path returns false after modifying the handle / moving bytes (%s): try_reclaim must leave address, length and capacity unchanged" % ", ".join(bad_false[1]),
-                path="bb" + "->bb".join(str(x) for x in bad_false[0]))
+        out.append((key, False, "a path returns false after modifying the handle / moving bytes (%s): try_reclaim must leave address, length and capacity unchanged" % ", ".join(bad_false[1]),
+                    {"path": "bb" + "->bb".join(str(x) for x in bad_false[0])}))
     elif n_false == 0:
-        res.bad(key, b.loc(), "no path returns false")
+        out.append((key, False, "no path returns false", None))
     else:
-        res.ok(key, b.loc(), "%d paths return false, none of them writes a field or moves bytes before" % n_false, nontrivial=True)
-    key = "%s|true => capacity re-established" % b.id
+        out.append((key, True, "%d paths return false, none of them writes a field or moves bytes before" % n_false, None))
+    key = "%s|true => capacity re-established" % bid
     if bad_true:
-        res.bad(key, b.loc(), "a path returns true without reassigning cap", path="bb" + "->bb".join(str(x) for x in bad_true[0]))
+        out.append((key, False, "a path returns true without reassigning cap", {"path": "bb" + "->bb".join(str(x) for x in bad_true[0])}))
     else:
-        res.ok(key, b.loc(), "%d paths return true, each through a justified cap write" % n_true, nontrivial=True)
+        out.append((key, True, "%d paths return true, each through a justified cap write" % n_true, None))
+    return out
 
 
 def reserve_promise(res, facts):
     """when the reservation helper returns true, capacity() - len() >= additional: every cap it writes is
     related to NEW = len + additional (checked) by one of the recognised arguments"""
-    cands = [b for b in facts.fn_bodies() if b.kind == "assoc_fn" and b.j.get("output") == "bool" and b.arg_count == 3
-             and b.locals[1]["ty"] == "&mut " + HANDLE and any(callee(t) and callee(t)["name"] == "copy_nonoverlapping" for _, t in b.calls())]
-    if len(cands) != 1:
-        raise RuleError("reservation helper not found")
-    b = cands[0]
+    b0 = reserve_helper(facts)
+    judged_on_views(res, facts, b0, lambda v: promise_verdicts(facts, v, b0.id))
+
+
+def promise_verdicts(facts, b, bid):
+    out = []
     eb = ExprBuilder(b, facts, inline=True)
     cfg = cfg_of(b)
     calls = calls_with(b, eb)
@@ -473,7 +523,7 @@ def reserve_promise(res, facts):
             continue
         cnt += 1
         C = w["expr"]
-        key = "%s|promise|cap#%d" % (b.id, cnt)
+        key = "%s|promise|cap#%d" % (bid, cnt)
         ctx = Ctx(b, w["bb"], facts)
         wloc = (w["bb"], w["si"])
         ok, how = False, ""
@@ -509,8 +559,11 @@ def reserve_promise(res, facts):
                 if r[0] in ("le", "lt") and r[1] == add and r[2] == want:
                     ok, how = True, "guard additional <= (cap - len) + off with cap += off"
         if ok:
-            res.ok(key, b.loc(w["bb"], w["si"]), how, nontrivial=True)
+            out.append((key, True, how, None))
         else:
-            res.bad(key, b.loc(w["bb"], w["si"]), "capacity is re-established as %s without relating it to len + additional: reserve(n)/try_reclaim(n) could return "
-                                                  "with capacity() - len() < n" % fmt_expr(C)[:100])
-    res.floor("reserve_cap_writes", cnt, 5)
+            out.append((key, False, "capacity is re-established as %s without relating it to len + additional: reserve(n)/try_reclaim(n) could return "
+                                    "with capacity() - len() < n" % fmt_expr(C)[:100], None))
+    if cnt < 4:
+        out.append(("%s|promise|cap writes" % bid, False, "only %d capacity writes found in the reservation helper (expected >= 4): the rule would pass vacuously" % cnt, None))
+    return out
+
